@@ -23,10 +23,10 @@ T = {
             "Elite index evaluates to Idx(best) of the mean of the last eval_loop scores; winner is best-ranked of the drawn; population size by path count; fresh indices.",
             "Not decided: faithfulness of each copy (C01); tie behaviour beyond one of the maxima."),
     "C06": ("term normal form + clip recogniser + ownership + registry multiplicity",
-            "RLParameter.mutate is value*factor clipped and cast; the base value is re-read from the individual; every optimizer registered for a mutated lr is rebuilt.",
+            "RLParameter.mutate is value*factor clipped and cast; the base value is re-read from the individual; every optimizer registered for a mutated lr is rebuilt (or every parameter group updated); optimizers of multi-lr algorithms are registered under the lr named at their construction site.",
             "Not decided: numeric drift over generations."),
     "C07": ("writer/reader key-set agreement, CFG ordering, typestate, alias attributes",
-            "Every checkpoint key read by both loaders is written by the writer; rebuild->load->optimizers order; weight-copying hooks vs load order.",
+            "Every checkpoint key read by both loaders is written by the writer; rebuild->load->optimizers order; weight-copying hooks vs load order; nothing rewrites restored optimizer state or attributes afterwards (hook write-sets); carried counters pass inspect_attributes' name filter; change_activation siblings update init_dict; parameter snapshots are detached.",
             "Not decided: equality of later learning trajectories."),
     "C08": ("polynomial normal form of the loss target over origin-tagged atoms (def-use, interprocedural parameter binding), done-substitution masking check, soft-update identity, typestate for parameterless modules, CFG post-dominance",
             "For 7 learners: target = reward + gamma^k*Q_shared(next) at done=0 and loses every next_obs term at done=1 (polynomial substitution); shared calls under no_grad; soft update identical to tau*e+(1-tau)*t, paired with the registry, non-vacuous, on every learn path.",
@@ -47,10 +47,10 @@ T = {
             "Guards dominate pipe I/O in every *_async/*_wait; every exit (including exceptional) of *_wait restores DEFAULT; error transport and close paths.",
             "Not decided: wall-clock bounds; process liveness. may-raise = calls, subscripts, raise."),
     "C14": ("def-use from mask to argmax with polarity, bound-rank lint, array-kind propagation",
-            "On every masked path the arg-max operand passed the mask; continuous clip bounds are not projected to one dimension.",
+            "On every masked path the arg-max operand passed the mask; continuous clip bounds are not projected to one dimension; batch sizes are read from a tensor leaf of dict/tuple observations; IPPO group masks are combined agent-major.",
             "Not decided: batch shape; best allowed action as a value."),
     "C15": ("dispatch exhaustiveness / sibling agreement over space kinds, rank-arithmetic lint, term normal form of image scaling",
-            "The six dispatchers cover the same closed set of space kinds or raise; rank comparisons are well-typed; scaling is (x-low)/(high-low).",
+            "The six dispatchers cover the same closed set of space kinds or raise; rank comparisons are well-typed; scaling is (x-low)/(high-low); container recursion passes member, sub-space, device and flag; the preparation path is pure (no in-place writes to the input); agents are visited in agent_ids order.",
             "Not decided: row-by-row equality; batch independence of actions."),
     "C16": ("handler-table agreement, parameter-dependence (def-use) of log_prob, reduction axes, squash correction pairing",
             "log_prob's density argument depends on the passed action on every path; reductions over the component axis; squash correction iff squash_output.",
